@@ -372,7 +372,7 @@ class FullEngine(Engine):
         if isinstance(cont, VSet) and xr is not None:
             return p.st.read("setmem", cont.ref, xr)
         if isinstance(cont, VDict) and xr is not None:
-            return p.st.read("dmem", cont.ref, xr)
+            return T.Mem(p.st.read("dkeys", cont.ref), xr)
         if isinstance(cont, VConst) and isinstance(cont.value, tuple) and cont.value[0] == "memo":
             owner = cont.value[1]
             d, u, f = self.memo_key(x)
@@ -753,7 +753,8 @@ class FullEngine(Engine):
             k = self.ref_of(idx)
             if k is None:
                 raise Unsupported("dict key")
-            p.st.write("dmem", (recv.ref, k), z3.BoolVal(True))
+            keys = p.st.read("dkeys", recv.ref)
+            p.st.write("dkeys", recv.ref, T.ite(T.Mem(keys, k), keys, T.snoc(keys, k)))    # insertion order (A9)
             return [(p, None)]
         if isinstance(recv, VOpaque):
             return [(p, None)]
@@ -880,6 +881,9 @@ class FullEngine(Engine):
     def call_external(self, dotted, args, kw, p):
         if dotted == "uuid.uuid4" and not args:
             return [(p, VConst(("uuid4",)))]
+        if dotted == "collections.deque" and len(args) == 1:
+            sq, ecn = self.iter_seq(p, args[0])
+            return [(p, self.new_list(p, sq, ecn, "deque"))]
         raise Unsupported(f"external call {dotted}")
 
     def bind_call_args(self, qualname, args, kw, skip_self=False):
@@ -959,11 +963,13 @@ class FullEngine(Engine):
         return v
 
     def call_contract(self, qualname, args: dict, p: Path, positional_rest=False):
-        c = self.reg.contracts.get(qualname)
+        c = None
+        if getattr(self, "cur_variant", None):
+            c = self.reg.contracts.get(f"{qualname}#{self.cur_variant}")
+        if c is None:
+            c = self.reg.contracts.get(qualname)
         if c is None:
             raise Unsupported(f"call to {qualname}: no contract")
-        if c.refines:
-            c = self.reg.contracts[c.refines] if False else c
         if positional_rest:
             # setter: the value parameter is the second declared parameter whatever its name
             names = [pr.name for pr in c.params]
@@ -1005,6 +1011,11 @@ class FullEngine(Engine):
             q.assume(o.cond)
             q.trail.append(f"[{qualname.split('.')[-1]}:{o.label or oi}]")
             self.enter_outcome(q, o, p.st)
+            if o.exc == "*":
+                # any exit: continue normally with an unknown result, or with an (unspecified) exception
+                out.append((q.copy(), VRaise("Exception", f"from {qualname}")))
+                out.append((q, o.result if o.result is not None else VOpaque("result")))
+                continue
             if o.exc is not None:
                 names = (o.exc,) if isinstance(o.exc, str) else tuple(o.exc)
                 for k_, en in enumerate(names):
@@ -1020,6 +1031,13 @@ class FullEngine(Engine):
         return out
 
     ghost_measure = None
+
+    def has_attr(self, S, obj, name):
+        """hasattr(obj, name): an instance attribute, or something the class provides (A6: the two do not overlap)"""
+        return z3.Or(S.read("dyn_has", obj, name), T.cls_has(T.cls_of(obj), name))
+
+    def get_attr(self, S, obj, name):
+        return T.ite(S.read("dyn_has", obj, name), S.read("dyn_val", obj, name), T.cls_get(obj, name))
 
     def attrs_from_literal(self, items, p: Path):
         """a dict display such as {"i": i} passed as attributes="""
@@ -1152,6 +1170,20 @@ class FullEngine(Engine):
             if name == "append" and len(args) == 1:
                 p.st.write("elems", recv.ref, T.snoc(seq, self.ref_of(args[0])))
                 return [(p, NONE_V)]
+            if name in ("popleft", "pop") and not args:
+                out = []
+                for (q, side) in self.fork(p, T.Len(seq) > 0, name):
+                    if not side:
+                        out.append((q, VRaise("IndexError", "pop from an empty container")))
+                        continue
+                    x, rest = T.fresh("popped", Ref), T.fresh("rest", RSeq)
+                    # decomposition by fresh constants (no nth / extract terms)
+                    q.assume(seq == (T.cat(T.unit(x), rest) if name == "popleft" else T.cat(rest, T.unit(x))))
+                    q.st.write("elems", recv.ref, rest)
+                    q.ghost = dict(q.ghost)
+                    q.ghost["last_pop"] = (x, rest)
+                    out.append((q, VRef(x, recv.elem_cname, "obj" if recv.elem_cname else "opaque")))
+                return out
         if isinstance(recv, VSet):
             if name == "add" and len(args) == 1:
                 p.st.write("setmem", (recv.ref, self.ref_of(args[0])), z3.BoolVal(True))
@@ -1234,6 +1266,16 @@ class FullEngine(Engine):
             return [(p, self.new_set(p))]
         if name == "dict" and not args:
             return [(p, self.new_dict(p))]
+        if name == "hasattr" and len(args) == 2 and isinstance(args[0], VRef) and isinstance(args[1], VStr):
+            return [(p, VBool(self.has_attr(p.st, args[0].term, args[1].term)))]
+        if name == "getattr" and len(args) == 2 and isinstance(args[0], VRef) and isinstance(args[1], VStr):
+            out = []
+            for (q, side) in self.fork(p, self.has_attr(p.st, args[0].term, args[1].term), "getattr"):
+                if side:
+                    out.append((q, VRef(self.get_attr(q.st, args[0].term, args[1].term), None, "opaque")))
+                else:
+                    out.append((q, VRaise("AttributeError")))
+            return out
         if name == "setattr" and len(args) == 3 and isinstance(args[0], VRef) and isinstance(args[1], VStr):
             return [(q, NONE_V) if r is None else (q, r) for (q, r) in self.set_dyn(args[0].term, args[1].term, args[2], p)]
         raise Unsupported(f"builtin {name}/{len(args)} with {[type(a).__name__ for a in args]}")
